@@ -4,6 +4,7 @@ import (
 	"fmt"
 	"go/token"
 	"go/types"
+	"sort"
 	"strings"
 
 	"golang.org/x/tools/go/ssa"
@@ -131,6 +132,23 @@ type payloadStore struct {
 	st   *ssa.Store
 	obj  ssa.Value // the container object whose payload field is written
 	cell string
+	// for a container handed back by a builder helper (st == nil): the call, and the byte source it was given
+	at  ssa.Instruction
+	src ssa.Value
+}
+
+func (ps payloadStore) where() ssa.Instruction {
+	if ps.st != nil {
+		return ps.st
+	}
+	return ps.at
+}
+
+func (ps payloadStore) sourceOf(ti *taintInfo) ssa.Value {
+	if ps.st != nil {
+		return ti.source[ps.st.Val]
+	}
+	return ps.src
 }
 
 // sinks classifies the stores of tainted slices.
@@ -152,7 +170,7 @@ func (ti *taintInfo) sinks(lv *tlLevel) (payload []payloadStore, bad []string) {
 				case lv.isTableStruct(pt.Elem()):
 					bad = append(bad, fmt.Sprintf("%s: caller-owned memory (%s) is installed as the slot-table array %s, which is shifted and overwritten in place without any copy-on-write check", ti.p.ipos(st), ti.vals[st.Val], cell))
 				case kindContentCells[cell]:
-					payload = append(payload, payloadStore{st, a.X, cell})
+					payload = append(payload, payloadStore{st: st, obj: a.X, cell: cell})
 				default:
 					// a local struct (stream wrapper etc.): not a bitmap data structure
 				}
@@ -307,15 +325,29 @@ func ruleA4(p *Prog) *RuleResult {
 			c := fmt.Sprintf("%s|payload %s#%d", s.fn, ps.cell, per[ps.cell])
 			ok, why := t.taintedPayloadFlagged(ti, ps)
 			if ok {
-				res.ok(c, p.ipos(ps.st), why)
+				res.ok(c, p.ipos(ps.where()), why)
 			} else {
-				res.bad(c, p.ipos(ps.st), why)
+				res.bad(c, p.ipos(ps.where()), why)
 			}
 		}
 		if len(payload) == 0 {
 			// the zero-copy branch may live in a helper that hands back the container together with its flag:
 			//   c, cow := wrapWords(words, ...) ; table.appendContainer(k, c, cow)
-			if ok, why, pos := a4PairHelper(p, e, f, ti); ok {
+			if built, bad := a4BuilderHelper(p, lv, f, ti); len(built) > 0 || len(bad) > 0 {
+				// or in a helper that reads from the byte source itself and hands back the finished container:
+				//   c, n, err := readPayload(stream, ...) ; table.containers[i] = c
+				for i, b := range bad {
+					res.bad(fmt.Sprintf("%s|builder table-array#%d", s.fn, i+1), p.pos(f.Pos()), b)
+				}
+				for i, ps := range built {
+					c := fmt.Sprintf("%s|payload built by helper#%d", s.fn, i+1)
+					if ok, why := t.taintedPayloadFlagged(ti, ps); ok {
+						res.ok(c, p.ipos(ps.where()), ps.cell+": "+why)
+					} else {
+						res.bad(c, p.ipos(ps.where()), why)
+					}
+				}
+			} else if ok, why, pos := a4PairHelper(p, e, f, ti); ok {
 				res.ok(s.fn+"|payload via helper", pos, why)
 			} else if why != "" {
 				res.bad(s.fn+"|payload via helper", pos, why)
@@ -446,7 +478,7 @@ func (t *tlFunc) taintedPayloadFlagged(ti *taintInfo, ps payloadStore) (bool, st
 		case "value":
 			// (1) flag = !source.NextReturnsSafeSlice()
 			if un, ok := fv.(*ssa.UnOp); ok && un.Op == token.NOT {
-				if c, ok := un.X.(*ssa.Call); ok && c.Call.IsInvoke() && c.Call.Method.Name() == "NextReturnsSafeSlice" && c.Call.Value == ti.source[ps.st.Val] {
+				if c, ok := un.X.(*ssa.Call); ok && c.Call.IsInvoke() && c.Call.Method.Name() == "NextReturnsSafeSlice" && c.Call.Value == ps.sourceOf(ti) {
 					continue
 				}
 			}
@@ -846,4 +878,149 @@ func a4PairHelper(p *Prog, e *tlEngine, f *ssa.Function, ti *taintInfo) (bool, s
 		}
 	}
 	return false, "", ""
+}
+
+// a4Carries: does g hand back, as its first result, a container object whose payload is memory obtained from
+// the byte source passed as parameter idx (Next called on it in g, or in a helper g passes it on to)? Returns
+// the payload cells concerned and any slot-table array that received such memory.
+func a4Carries(p *Prog, lv *tlLevel, g *ssa.Function, idx int, depth int) (cells []string, bad []string) {
+	if g == nil || g.Blocks == nil || idx >= len(g.Params) || depth > 3 {
+		return nil, nil
+	}
+	src := ssa.Value(g.Params[idx])
+	gti := &taintInfo{f: g, p: p, vals: map[ssa.Value]string{}, source: map[ssa.Value]ssa.Value{}}
+	objs := map[ssa.Value]string{} // container objects holding source memory
+	for _, b := range g.Blocks {
+		for _, ins := range b.Instrs {
+			c, ok := ins.(*ssa.Call)
+			if !ok {
+				continue
+			}
+			if c.Call.IsInvoke() && c.Call.Method.Name() == "Next" && c.Call.Value == src {
+				gti.vals[c] = "result of ByteInput.Next"
+				gti.source[c] = src
+				continue
+			}
+			if h := c.Call.StaticCallee(); h != nil && inRepo(h) {
+				for i, a := range c.Call.Args {
+					if a == src {
+						cs, bd := a4Carries(p, lv, h, i, depth+1)
+						bad = append(bad, bd...)
+						if len(cs) > 0 {
+							objs[firstResult(c)] = strings.Join(cs, "+")
+						}
+					}
+				}
+			}
+		}
+	}
+	if len(gti.vals) > 0 {
+		gti.propagate()
+		pay, bd := gti.sinks(lv)
+		bad = append(bad, bd...)
+		for _, ps := range pay {
+			objs[ps.obj] = ps.cell
+		}
+	}
+	if len(objs) == 0 {
+		return nil, bad
+	}
+	// a composite literal copied as a whole into the variable that is handed back: *nb = *complit
+	for changed := true; changed; {
+		changed = false
+		for o, cell := range objs {
+			if o.Referrers() == nil {
+				continue
+			}
+			for _, r := range *o.Referrers() {
+				u, ok := r.(*ssa.UnOp)
+				if !ok || u.Op != token.MUL || u.X != o || u.Referrers() == nil {
+					continue
+				}
+				if _, isStruct := u.Type().Underlying().(*types.Struct); !isStruct {
+					continue
+				}
+				for _, r2 := range *u.Referrers() {
+					if st, ok := r2.(*ssa.Store); ok && st.Val == ssa.Value(u) {
+						if _, have := objs[st.Addr]; !have {
+							objs[st.Addr] = cell
+							changed = true
+						}
+					}
+				}
+			}
+		}
+	}
+	// which of them reach the first result?
+	seenCell := map[string]bool{}
+	for _, b := range g.Blocks {
+		r, ok := b.Instrs[len(b.Instrs)-1].(*ssa.Return)
+		if !ok || len(r.Results) == 0 {
+			continue
+		}
+		for _, v := range sliceBack(r.Results[0], func(v ssa.Value) bool { _, ok := objs[v]; return ok }) {
+			if !seenCell[objs[v]] {
+				seenCell[objs[v]] = true
+				cells = append(cells, objs[v])
+			}
+		}
+		if mi, ok := r.Results[0].(*ssa.MakeInterface); ok {
+			if c, ok := objs[mi.X]; ok && !seenCell[c] {
+				seenCell[c] = true
+				cells = append(cells, c)
+			}
+		}
+	}
+	sort.Strings(cells)
+	return cells, bad
+}
+
+// firstResult: the call value itself for a single result, else the extraction of result 0 (nil when unused)
+func firstResult(c *ssa.Call) ssa.Value {
+	if c.Call.Signature().Results().Len() <= 1 {
+		return c
+	}
+	if c.Referrers() != nil {
+		for _, r := range *c.Referrers() {
+			if ex, ok := r.(*ssa.Extract); ok && ex.Index == 0 {
+				return ex
+			}
+		}
+	}
+	return nil
+}
+
+// a4BuilderHelper: calls in f that pass one of f's byte sources to a helper which hands back a container
+// carrying memory of that source.
+func a4BuilderHelper(p *Prog, lv *tlLevel, f *ssa.Function, ti *taintInfo) (built []payloadStore, bad []string) {
+	srcs := map[ssa.Value]bool{}
+	for _, s := range ti.source {
+		srcs[s] = true
+	}
+	for _, b := range f.Blocks {
+		for _, ins := range b.Instrs {
+			c, ok := ins.(*ssa.Call)
+			if !ok {
+				continue
+			}
+			g := c.Call.StaticCallee()
+			if g == nil || !inRepo(g) {
+				continue
+			}
+			for i, a := range c.Call.Args {
+				if !srcs[a] {
+					continue
+				}
+				cells, bd := a4Carries(p, lv, g, i, 0)
+				bad = append(bad, bd...)
+				if len(cells) == 0 {
+					continue
+				}
+				if obj := firstResult(c); obj != nil {
+					built = append(built, payloadStore{obj: obj, cell: strings.Join(cells, "+"), at: c, src: a})
+				}
+			}
+		}
+	}
+	return built, bad
 }
